@@ -85,6 +85,8 @@ theorem tryExtract_entries (s : Schema) (st : NState) (v : Value) (t : GType) :
   unfold tryExtract
   split
   · exact ⟨⟨[], by simp⟩, rfl⟩
+  split
+  · exact ⟨⟨[], by simp⟩, rfl⟩
   · split
     · exact ⟨⟨[], by simp⟩, rfl⟩
     · split
@@ -99,8 +101,10 @@ theorem tryExtract_entriesOK (s : Schema) (st : NState) (v : Value) (t : GType)
   unfold tryExtract
   split
   · exact h
-  · rename_i hv
-    split
+  rename_i hv
+  split
+  · exact h
+  · split
     · exact h
     · rename_i hval
       split
@@ -117,6 +121,8 @@ theorem tryExtract_entriesOK (s : Schema) (st : NState) (v : Value) (t : GType)
 theorem tryExtract_namesOK (s : Schema) (st : NState) (v : Value) (t : GType) (h : NamesOK st) :
     NamesOK (tryExtract s st v t).2 := by
   unfold tryExtract
+  split
+  · exact h
   split
   · exact h
   · split
@@ -158,6 +164,10 @@ theorem tryExtract_transparent (s : Schema) (hcc : customLti s)
   · simp only [hv, if_true]; exact huser hv
   · have hv' : hasVars v = false := by simpa using hv
     simp only [hv', Bool.false_eq_true, if_false] at hre ⊢
+    by_cases hdup : dupFields v = true
+    · simp only [hdup, if_true]
+      exact valueFromAST_novars s t (some v) vars' vars hv'
+    simp only [hdup, Bool.false_eq_true, if_false] at hre ⊢
     by_cases hval : isValidLiteralValue s t (some v) = true
     case neg =>
       simp only [hval, Bool.not_false, if_true]
@@ -365,7 +375,7 @@ theorem normArgs_erase (s : Schema) (defs : List ArgDef) : ∀ (as : List Argume
 
 mutual
 theorem normSel_shape (s : Schema) : ∀ (x : Selection) (parent : String) (st : NState),
-    eraseSel (normSel s parent x st).1 = eraseSel x
+    eraseSel (normSel s keep parent x st).1 = eraseSel x
   | .field alias name args dirs sel loc, parent, st => by
     cases hfd : fieldDefN s parent name.value with
     | none => simp only [normSel, hfd]
@@ -377,30 +387,51 @@ theorem normSel_shape (s : Schema) : ∀ (x : Selection) (parent : String) (st :
     simp only [normSel, eraseSel, normSet_shape s ss]
   | .spread n d l, parent, st => by simp [normSel]
 theorem normOpt_shape (s : Schema) : ∀ (x : Option SelectionSet) (parent : String) (st : NState),
-    eraseOpt (normOpt s parent x st).1 = eraseOpt x
+    eraseOpt (normOpt s keep parent x st).1 = eraseOpt x
   | none, parent, st => by simp [normOpt]
   | some ss, parent, st => by simp only [normOpt, eraseOpt, normSet_shape s ss]
 theorem normSet_shape (s : Schema) : ∀ (x : SelectionSet) (parent : String) (st : NState),
-    eraseSet (normSet s parent x st).1 = eraseSet x
+    eraseSet (normSet s keep parent x st).1 = eraseSet x
   | .mk sels loc, parent, st => by simp only [normSet, eraseSet, normList_shape s sels]
 theorem normList_shape (s : Schema) : ∀ (xs : List Selection) (parent : String) (st : NState),
-    eraseList (normList s parent xs st).1 = eraseList xs
+    eraseList (normList s keep parent xs st).1 = eraseList xs
   | [], parent, st => by simp [normList, eraseList]
   | x :: xs, parent, st => by
     simp only [normList, eraseList, normSel_shape s x, normList_shape s xs]
 end
 
+/-! ## fields whose response key occurs in a fragment definition keep their arguments (D-06n) -/
+
+theorem normArgs_nil (s : Schema) : ∀ (as : List Argument) (st : NState), normArgs s [] as st = (as, st) := by
+  intro as
+  induction as with
+  | nil => intro st; rfl
+  | cons a as ih => intro st; simp only [normArgs, List.find?_nil, ih]
+
+theorem argDefsFor_cases (keep : List String) (k : String) (fd : FieldDefS) :
+    (keep.contains k = true ∧ argDefsFor keep k fd = []) ∨ (keep.contains k = false ∧ argDefsFor keep k fd = fd.args) := by
+  unfold argDefsFor
+  cases h : keep.contains k
+  · exact Or.inr ⟨rfl, by simp⟩
+  · exact Or.inl ⟨rfl, by simp⟩
+
+theorem mem_argDefsFor {keep : List String} {k : String} {fd : FieldDefS} {d : ArgDef} (h : d ∈ argDefsFor keep k fd) :
+    d ∈ fd.args := by
+  rcases argDefsFor_cases keep k fd with ⟨_, h'⟩ | ⟨_, h'⟩
+  · rw [h'] at h; cases h
+  · rw [h'] at h; exact h
+
 /-! ## the walk keeps the name invariant -/
 
 mutual
 theorem normSel_namesOK (s : Schema) : ∀ (x : Selection) (parent : String) (st : NState),
-    NamesOK st → NamesOK (normSel s parent x st).2 ∧ (normSel s parent x st).2.taken = st.taken
+    NamesOK st → NamesOK (normSel s keep parent x st).2 ∧ (normSel s keep parent x st).2.taken = st.taken
   | .field alias name args dirs sel loc, parent, st, h => by
     cases hfd : fieldDefN s parent name.value with
     | none => simp only [normSel, hfd]; exact ⟨h, by first | rfl | trivial⟩
     | some fd =>
-      have ha := normArgs_namesOK s fd.args args st h
-      have ht := (normArgs_entries s fd.args args st).2.1
+      have ha := normArgs_namesOK s (argDefsFor keep (respKey alias name) fd) args st h
+      have ht := (normArgs_entries s (argDefsFor keep (respKey alias name) fd) args st).2.1
       by_cases ho : s.isObject fd.type.namedName = true
       · simp only [normSel, hfd, ho, if_true]
         obtain ⟨h1, h2⟩ := normOpt_namesOK s sel fd.type.namedName _ ha
@@ -411,14 +442,14 @@ theorem normSel_namesOK (s : Schema) : ∀ (x : Selection) (parent : String) (st
     exact normSet_namesOK s ss _ st h
   | .spread n d l, parent, st, h => ⟨h, rfl⟩
 theorem normOpt_namesOK (s : Schema) : ∀ (x : Option SelectionSet) (parent : String) (st : NState),
-    NamesOK st → NamesOK (normOpt s parent x st).2 ∧ (normOpt s parent x st).2.taken = st.taken
+    NamesOK st → NamesOK (normOpt s keep parent x st).2 ∧ (normOpt s keep parent x st).2.taken = st.taken
   | none, parent, st, h => ⟨h, rfl⟩
   | some ss, parent, st, h => by simp only [normOpt]; exact normSet_namesOK s ss parent st h
 theorem normSet_namesOK (s : Schema) : ∀ (x : SelectionSet) (parent : String) (st : NState),
-    NamesOK st → NamesOK (normSet s parent x st).2 ∧ (normSet s parent x st).2.taken = st.taken
+    NamesOK st → NamesOK (normSet s keep parent x st).2 ∧ (normSet s keep parent x st).2.taken = st.taken
   | .mk sels loc, parent, st, h => by simp only [normSet]; exact normList_namesOK s sels parent st h
 theorem normList_namesOK (s : Schema) : ∀ (xs : List Selection) (parent : String) (st : NState),
-    NamesOK st → NamesOK (normList s parent xs st).2 ∧ (normList s parent xs st).2.taken = st.taken
+    NamesOK st → NamesOK (normList s keep parent xs st).2 ∧ (normList s keep parent xs st).2.taken = st.taken
   | [], parent, st, h => ⟨h, rfl⟩
   | x :: xs, parent, st, h => by
     simp only [normList]
@@ -538,34 +569,34 @@ theorem userOK_of_agree (s : Schema) (vars vars' : Vars) (as : List Argument)
 
 mutual
 theorem normSel_entries_ext (s : Schema) : ∀ (x : Selection) (P : String) (st : NState),
-    ∃ es, (normSel s P x st).2.entries = st.entries ++ es
+    ∃ es, (normSel s keep P x st).2.entries = st.entries ++ es
   | .field al nm args dirs sel loc, P, st => by
     cases hfd : fieldDefN s P nm.value with
     | none => simp only [normSel, hfd]; exact ⟨[], by simp⟩
     | some fd =>
-      obtain ⟨⟨esA, hA⟩, _, _⟩ := normArgs_entries s fd.args args st
+      obtain ⟨⟨esA, hA⟩, _, _⟩ := normArgs_entries s (argDefsFor keep (respKey al nm) fd) args st
       by_cases ho : s.isObject fd.type.namedName = true
       · simp only [normSel, hfd, ho, if_true]
-        obtain ⟨esO, hO⟩ := normOpt_entries_ext s sel fd.type.namedName (normArgs s fd.args args st).2
+        obtain ⟨esO, hO⟩ := normOpt_entries_ext s sel fd.type.namedName (normArgs s (argDefsFor keep (respKey al nm) fd) args st).2
         exact ⟨esA ++ esO, by rw [hO, hA, List.append_assoc]⟩
       · simp only [normSel, hfd, ho, Bool.false_eq_true, if_false]; exact ⟨esA, hA⟩
   | .inline tc dirs ss loc, P, st => by
     simp only [normSel]; exact normSet_entries_ext s ss _ st
   | .spread n d l, P, st => ⟨[], by simp [normSel]⟩
 theorem normOpt_entries_ext (s : Schema) : ∀ (x : Option SelectionSet) (P : String) (st : NState),
-    ∃ es, (normOpt s P x st).2.entries = st.entries ++ es
+    ∃ es, (normOpt s keep P x st).2.entries = st.entries ++ es
   | none, P, st => ⟨[], by simp [normOpt]⟩
   | some ss, P, st => by simp only [normOpt]; exact normSet_entries_ext s ss P st
 theorem normSet_entries_ext (s : Schema) : ∀ (x : SelectionSet) (P : String) (st : NState),
-    ∃ es, (normSet s P x st).2.entries = st.entries ++ es
+    ∃ es, (normSet s keep P x st).2.entries = st.entries ++ es
   | .mk sels loc, P, st => by simp only [normSet]; exact normList_entries_ext s sels P st
 theorem normList_entries_ext (s : Schema) : ∀ (xs : List Selection) (P : String) (st : NState),
-    ∃ es, (normList s P xs st).2.entries = st.entries ++ es
+    ∃ es, (normList s keep P xs st).2.entries = st.entries ++ es
   | [], P, st => ⟨[], by simp [normList]⟩
   | x :: xs, P, st => by
     simp only [normList]
     obtain ⟨e1, h1⟩ := normSel_entries_ext s x P st
-    obtain ⟨e2, h2⟩ := normList_entries_ext s xs P (normSel s P x st).2
+    obtain ⟨e2, h2⟩ := normList_entries_ext s xs P (normSel s keep P x st).2
     exact ⟨e1 ++ e2, by rw [h2, h1, List.append_assoc]⟩
 end
 
